@@ -42,6 +42,11 @@ CLAIMED = {
         "Decides that every heap-owning field of OrcProgram, OrcCode, OrcBytecode, OrcParseError and the parser object is released by its destructor/scope, that every exit of orc_compiler_compile_program frees the compiler and the same scratch set, that strings from _orc_getenv/strsplit are freed by their callers, that setters release the old value, that take_code/asm_code moves do not leave two owners, and that resets null what they free. Use-after-free across API histories is not decided.",
         "Trusted: allocator/releaser tables in lib/ownership.py; process-lifetime registries are not instances.",
         "DESIGN.md §4 C16"),
+    "C08": (
+        "must-hold lock-state dataflow with requires-lock caller summaries (R-LOCK), lock pairing as exit-state typestate including the once_enter/leave protocol, publication-order dominance with memory-order constants of the C11 atomics, effect analysis of the compile/run call-graph slice (indirect calls resolved through function-pointer slots) against process-wide state, double-checked-flag atomicity",
+        "Decides that the code-memory allocator's shared state is only touched with the global mutex held, that both mutexes are released on every path (with the asymmetric once protocol), that the once protocol publishes value before a release store and reads it only after a non-zero acquire load, that no function reachable from the compile/run entry points writes process-wide state outside a lock or a once-flag first run from orc_init, that registries are written only on the init path or by the registration API, and that no plain variable is read outside and written inside a mutex. Absence of all data races and correctness of concurrent results are not decided.",
+        "Trusted: clang CFG; the C11-atomics branch of orconce.h is the one this build compiles; fresh unpublished objects need no lock.",
+        "DESIGN.md §4 C08"),
 }
 
 NOT_YET = "check under construction in this round; not claimed until its rules are exact on the current tree"
